@@ -123,6 +123,11 @@ func Load(repoDir, specDir string, patterns []string) (*Engine, error) {
 		if f.Synthetic != "" && !strings.Contains(f.Synthetic, "instance") {
 			continue
 		}
+		if o := f.Origin(); o != nil && len(o.Blocks) > 0 {
+			// verify the generic body (type parameters opaque), not one instantiation
+			E.Funcs[stripGenerics(o.String())] = o
+			continue
+		}
 		k := stripGenerics(f.String())
 		if old, ok := E.Funcs[k]; ok {
 			// prefer the generic origin (no type args)
